@@ -685,6 +685,10 @@ class Monitor:
                 prev = x
             inner = cin
             detail = 'use-missing:' + self._uses_detail(culprit, cin, culprit.names.get(sid) or nms, sid, bindings)
+        elif in_d:
+            # both sets hold the name, but as different symbols: visit_Associate maps an associate name back to
+            # the selector expression *with* its subscripts (a(:), a(2)), which does not equal the plain symbol
+            detail = 'associate-selector-with-subscripts-not-matched'
         else:
             detail = self._lcd_def_detail(e, writer, sid, nms, bindings)
         key = f'lcd:{detail}'
@@ -754,8 +758,9 @@ class Monitor:
             fake = Entry(node, kern_names, None, False)
             return 'CallStatement:' + self._call_detail(fake, sid, nms, bindings, defines=defines)
         # names under which the writing / reading statement know the variable (associate names)
-        w_as = names & self.nsets(wnode)[0]
-        r_as = names & self.nsets(rnode)[1]
+        allnames = names | self._alias_names(t, wnode, names) | self._alias_names(t, rnode, names)
+        w_as = allnames & self.nsets(wnode)[0]
+        r_as = allnames & self.nsets(rnode)[1]
         if w_as and r_as and not w_as & r_as:
             detail = 'associate-name-differs-between-write-and-read'
         elif not names & wnames:
